@@ -41,6 +41,8 @@ def bytes_from_terms(terms, mutable=False):
 
 
 def bytes_concat(a, b, mutable=False):
+    a.commit()
+    b.commit()
     if a.conc is not None and b.conc is not None:
         return SBytes.concrete(bytes(a.conc + b.conc), mutable)
     if isinstance(a.length, int) and a.length == 0:
@@ -111,10 +113,16 @@ def bytes_slice(ex, b, sl, mutable=None):
         raise Unsupported('bytes slice with step')
     n = b.length if isinstance(b.length, int) else SInt(b.length)
     lo, ln = norm_slice(ex, n, sl.start, sl.stop)
+    pend = None
     if b.watch is not None:
-        b.watch(lo, mk_int(zi(lo) + zi(ln)))
+        w = b.watch
+        pend = lambda: w(lo, mk_int(zi(lo) + zi(ln)))   # noqa
+    elif b.pending is not None:
+        pend = b.commit
     if b.conc is not None and isinstance(lo, int) and isinstance(ln, int):
-        return SBytes.concrete(bytes(b.conc[lo:lo + ln]), mutable)
+        r = SBytes.concrete(bytes(b.conc[lo:lo + ln]), mutable)
+        r.pending = pend
+        return r
     base = b.at
     if isinstance(lo, int):
         if lo == 0:
@@ -127,7 +135,9 @@ def bytes_slice(ex, b, sl, mutable=None):
 
         def at(i):
             return base(z3.simplify(_z(i) + zlo))
-    return SBytes(ln if isinstance(ln, int) else ln.t, at, mutable)
+    r = SBytes(ln if isinstance(ln, int) else ln.t, at, mutable)
+    r.pending = pend
+    return r
 
 
 def bytes_eq(ex, a, b):
